@@ -37,7 +37,7 @@ CC_plain    := clang
 CFLAGS_plain := -O1 -g
 # cov: source coverage of the library under a check (bin/cover), to find branches no letter reaches
 CC_cov      := clang
-CFLAGS_cov  := -O0 -g -fprofile-instr-generate -fcoverage-mapping
+CFLAGS_cov  := -O0 -g -fprofile-instr-generate -fcoverage-mapping -fsanitize=$(UBSAN_CHECKS) -fsanitize-recover=all
 
 LDLIBS := -lpthread -lm -lpng -lz
 
